@@ -503,6 +503,32 @@ class LemmaReadChunks:
         return len(e) - pos
 
 
+@contract("lemmas.tlv8:lemma_read_item", prop="C16", modular=True)
+class LemmaReadItem:
+    params = {"b": Bytes, "pre": Bytes, "t": Int, "e": Bytes, "rest": Bytes}
+    raises = {}
+
+    def pre_(b, pre, t, e, rest):
+        return (
+            0 <= t <= 255
+            and len(e) >= 1
+            and (len(rest) == 0 or rest[0] != t or len(e) % 255 != 0)
+            and b == pre + chunks_from(t, e, 0) + rest
+        )
+
+    requires = [pre_]
+
+    def the_item(b, pre, t, e, rest):
+        off = len(pre)
+        nxt = len(b) - len(rest)
+        return (
+            items_from(b, off) == [(nxt - 2 - last_len(e), t, last_len(e), e)] + items_from(b, nxt)
+            and headers_ok(b, off) == headers_ok(b, nxt)
+        )
+
+    ensures = [the_item]
+
+
 @contract("lemmas.tlv8:lemma_chunks_canon", prop="C16", modular=True)
 class LemmaChunksCanon:
     params = {"t": Int, "e": Bytes}
@@ -674,7 +700,7 @@ def _before_iter(it, ns):
         it.call_function(L.lemma_chunks_len, [t, e, 0], {})
         pre = eval_clause(it, cat, {"parts": cs[:j]})
         rest = eval_clause(it, cat, {"parts": cs[j + 1:]})
-        it.call_function(L.lemma_read_chunks, [b, pre, t, e, 0, rest], {})
+        it.call_function(L.lemma_read_item, [b, pre, t, e, rest], {})
         ctx.oblige(f"{tag}/read.field", ops.truth_term(eval_clause(it, _item_fact, {"b": b, "pre": pre, "c": c, "t": t, "e": e})))
         ctx.oblige(f"{tag}/read.headers", ops.truth_term(eval_clause(it, _hdr_fact, {"b": b, "pre": pre, "c": c})))
         literal.append(eval_clause(it, _item_tuple, {"pre": pre, "c": c, "t": t, "e": e}))
